@@ -12,6 +12,7 @@ import (
 	"context"
 	"encoding/gob"
 	"fmt"
+	"io"
 	"reflect"
 	"time"
 
@@ -286,3 +287,20 @@ func (m VerifMachine) Machine() *bigmachine.Machine { return m.m.Machine }
 
 // Done returns procs to the manager, reporting err.
 func (m VerifMachine) Done(procs int, err error) { m.m.Done(procs, err) }
+
+// VerifFileStore returns a file-backed task store rooted at prefix.
+func VerifFileStore(prefix string) Store { return &fileStore{Prefix: prefix} }
+
+// VerifMemoryStore returns an in-memory task store.
+func VerifMemoryStore() Store { return newMemoryStore() }
+
+type verifOpener func(ctx context.Context, offset int64) (io.ReadCloser, error)
+
+func (f verifOpener) OpenAt(ctx context.Context, offset int64) (io.ReadCloser, error) {
+	return f(ctx, offset)
+}
+
+// VerifNewRetryReader returns a retryReader over the provided opener.
+func VerifNewRetryReader(ctx context.Context, open func(ctx context.Context, offset int64) (io.ReadCloser, error)) io.ReadCloser {
+	return newRetryReader(ctx, verifOpener(open))
+}
